@@ -51,6 +51,20 @@ pub open spec fn fix_char_spec(c: char) -> char {
 	let u = c as u32;
 	if 0xff01 <= u <= 0xff5e { ((u - 0xfee0) as u8) as char } else if u == 0x3000 { ' ' } else if u == 0x2019 { '\'' } else if u == 0x201d { '"' } else { c }
 }
+// the real fix_char against the property's character map, for every char (the same claim the Kani harness c19_fix_char
+// proves on the unextracted crate); `char::try_from(c).unwrap()` never panics is an obligation of this function too.
+// Assumed: the two std conversions (u32::from(char) is the scalar value; char::try_from(u32) succeeds exactly on scalar values).
+#[verifier::external_type_specification]
+#[verifier::external_body]
+pub struct ExCharTryFromError(std::char::CharTryFromError);
+pub open spec fn is_scalar_value(u: u32) -> bool { u <= 0xD7FF || 0xE000 <= u <= 0x10FFFF }
+pub assume_specification [<char as TryFrom<u32>>::try_from](u: u32) -> (r: std::result::Result<char, <char as std::convert::TryFrom<u32>>::Error>)
+	ensures is_scalar_value(u) ==> r is Ok && r->Ok_0 as u32 == u, !is_scalar_value(u) ==> r is Err;
+pub assume_specification [<u32 as From<char>>::from](c: char) -> (r: u32)
+	ensures r == c as u32;
+//@fn src/game/shift_jis.rs | - | fix_char | ret=res
+	ensures res == fix_char_spec(c) /*[C19.fix_char_is_the_character_map]*/,
+//@end
 // `s.clone().chars().map(fix_char).collect::<String>()`: std yields the scalar values in order, applies the function to each,
 // and concatenates.  The extraction PINS this exact expression: any other body text is UNDECIDED and is decided natively (c19 search).
 #[verifier::external_body]
